@@ -1142,7 +1142,7 @@ let skew_tbl =
 (** val skew : n -> n **)
 
 let skew i =
-  tget skew_tbl i
+  if N.ltb i gF_MODULUS then tget skew_tbl i else gF_MODULUS
 
 type 't elt_ops = { xorT : ('t -> 't -> 't); mulT : ('t -> n -> 't);
                     zeroT : 't }
